@@ -166,6 +166,8 @@ REPLAY_HISTS = [
     ([["rename", "a", "c"]], [["rename", "c", "a"]]),
     ([["mkdir", "m"], ["delete", "m"]], [["create", "m", "F1"]]),
     ([["create", "t", "2"]], [["delete", "t"], ["delete", "d/b"]]),
+    ([["delete", "a"]], [["create", "a", "N2"]]),
+    ([["delete", "d/b"], ["delete", "d"]], [["mkdir", "d"], ["create", "d/b", "N3"]]),
 ]
 
 
@@ -191,9 +193,15 @@ def run_replay_variant(job, plan):
                 return iter(new)
             if plan and new and not st["done"]:
                 st["done"] = True
-                with_hash, placement, subset = plan
-                rep = [replace(e, hash=(h if with_hash else e.hash)) for i, (e, h) in enumerate(old) if i in subset]
-                new = rep + new if placement == "before" else new + rep
+                if plan[0] == "droppath":
+                    st["n2"] = len(new)
+                    new = [replace(e, path=None) if i in plan[1] else e for i, e in enumerate(new)]
+                else:
+                    with_hash, placement, subset = plan
+                    rep = [replace(e, hash=(h if with_hash else e.hash)) for i, (e, h) in enumerate(old) if i in subset]
+                    new = rep + new if placement == "before" else new + rep
+            elif new and not st["done"] and st["phase"] == 2:
+                st["n2"] = len(new)
             return iter(new)
         p.events = events
         ph1, ph2 = job["phases"]
@@ -212,6 +220,7 @@ def run_replay_variant(job, plan):
             return {"noquiesce": True}, len(old)
         jd = P.judge(w)
         jd["spurious"] = [list(map(str, x)) for x in w.spurious]
+        jd["n2"] = st.get("n2", 0)
         return jd, len(old)
     finally:
         w.close()
@@ -248,6 +257,26 @@ def run_replay_job(job):
                         vs[sig] = viol("mangle-" + bad[0], sig, {"side": job["side"], "with_hash": with_hash, "placement": placement,
                                                               "replayed": sub, "observed": bad[1], "prompt": base["trees"]})
                         vs[sig]["hist"] = ["PHASE1", "SETTLE", "PHASE2", "REPLAY(%s)" % json.dumps([with_hash, placement, sub]), "SETTLE"]
+    # the events of the second phase arrive without their path (every non-empty subset)
+    n2 = min(base.get("n2", 0), 4)
+    for sub in [list(c) for r in range(1, n2 + 1) for c in itertools.combinations(range(n2), r)]:
+        res, _ = run_replay_variant(job, ("droppath", sub))
+        n_eval += 1
+        bad = None
+        if res.get("noquiesce"):
+            bad = ("noquiesce", {})
+        elif res.get("busy") and not base.get("busy"):
+            bad = ("busy", {"pending": res["busy"]})
+        elif res["trees"] != base["trees"]:
+            bad = ("differs-from-prompt", res["trees"])
+        elif [a for a in res["artefacts"] if a not in base["artefacts"]]:
+            bad = ("artefact", res["trees"])
+        if bad is not None:
+            sig = "%s:droppath-phase2:%s:%s" % ("LR"[job["side"]], bad[0], digest(json.dumps(bad[1], sort_keys=True, default=repr)))
+            if sig not in vs:
+                vs[sig] = viol("mangle-" + bad[0], sig, {"side": job["side"], "dropped_paths_of": sub, "observed": bad[1],
+                                                      "prompt": base["trees"]})
+                vs[sig]["hist"] = ["PHASE1", "SETTLE", "PHASE2", "DROPPATH(%s)" % json.dumps(sub), "SETTLE"]
     return _result(job, n_eval, 0, vs, None)
 
 
